@@ -317,7 +317,17 @@ func (g *Gen) Next(step int) Op {
 				x = int64(100 + r.Intn(5000))
 			}
 		}
-		return Op{K: "SendToFx", C: c, T: t, A: g.user(), X: x, Tgt: tgt}
+		o := Op{K: "SendToFx", C: c, T: t, A: g.user(), X: x, Tgt: tgt}
+		// sometimes the observed deposit is left unexecuted for a while (valid module-owned token, plain target: nothing
+		// but the pending-execute record decides whether it can be executed later)
+		if tgt == 0 && w.Toks[t].Kind == lib.TokModuleOwned && w.Toks[t].Alias(chainName(c)) != nil && g.liveChain(c) && r.Chance(25) {
+			o.Park = true
+		}
+		return o
+	}
+	if len(w.parked) > 0 && r.Chance(12) {
+		p := w.parked[r.Pick(len(w.parked))]
+		return Op{K: "ExecParked", C: p.C, ID: p.ID}
 	}
 	weights := []struct {
 		k string
@@ -497,11 +507,13 @@ func (g *Gen) Next(step int) Op {
 			}
 			to := g.user()
 			okk := true
-			switch r.Pick(5) {
+			switch r.Pick(6) {
 			case 0:
 				to = cOK
 			case 1:
 				to, okk = cBad, false
+			case 2:
+				to = cRe // its callback re-enters executeClaim for the very claim being executed (refused; swallowed)
 			}
 			rf := to
 			if r.Chance(40) || to == cBad {
